@@ -31,6 +31,7 @@ type PropSpec struct {
 	Units    []string // functions under full contract (full names)
 	Bounded  []BoundedUnit
 	Custom   []string // names of custom checkers (tables, frames, ...)
+	Partial  []string // functions under partial contract (registry-claimed obligations)
 	Patterns []string // package patterns to load
 	Notes    []string
 	Trusted  []string
